@@ -79,6 +79,7 @@ func main() {
 	if *replay != "" {
 		os.Exit(doReplay(*replay, scratch))
 	}
+	crashMode = *prop == "C09"
 	var o *Output
 	switch *mode {
 	case "hist":
@@ -206,6 +207,11 @@ func oraclesOn(dir string, ops []*Op, spec PropSpec, prop string) []*Violation {
 			}
 		}
 		obs := e.Apply(&cp)
+		for _, v := range e.pending {
+			v.Op = i
+			vs = append(vs, v)
+		}
+		e.pending = nil
 		if first == nil {
 			first = &Case{}
 		}
@@ -344,6 +350,7 @@ func doReplay(path, scratch string) int {
 		fmt.Println(err)
 		return 2
 	}
+	crashMode = rf.Property == "C09"
 	spec, ok := propSpecs[rf.Property]
 	if !ok {
 		return replayMode(&rf, scratch)
